@@ -1,5 +1,66 @@
 import Sigc.Model
-import Sigc.Spec
-/-! property theorems for C02 (being written) -/
+import Sigc.Lemmas.Basic
+import Sigc.Lemmas.Frames
+/-!
+# C02 — destroying a trackable invalidates and disconnects every slot that refers to it
+(first theorems; the all-history invariants are being proved in Sigc/Lemmas/Inv*.lean)
+-/
 namespace Sigc.C02
+open Sigc.Model
+
+/-- an invalidated slot is empty, refers to no trackable any more and holds no functor copy -/
+theorem invalidate_slot (sl : SlotB) (t fid : Nat) :
+    sl.invalidate.tracksObj t = false ∧ sl.invalidate.live fid = 0 ∧
+    (sl.rep.isSome → sl.invalidate.empty = true) := by
+  unfold SlotB.invalidate
+  cases hr : sl.rep <;> simp [SlotB.tracksObj, SlotB.live, SlotB.empty, hr]
+
+/-- after `trackable::notify_callbacks()` of object `t` (destruction, assignment, move, explicit
+    notify), no slot variable refers to `t`, in any state, for any number of slot variables,
+    copies and nestings -/
+theorem invalidateTrackable_user_slots (s : St) (t : Nat) :
+    ∀ i v, aget (invalidateTrackable s t).S i = some v → v.slot.tracksObj t = false := by
+  intro i v h
+  unfold invalidateTrackable at h
+  simp only [foldl_invalidateCell_S] at h
+  rw [aget_amap] at h
+  cases hv : aget s.S i with
+  | none => simp [hv] at h
+  | some v0 =>
+    simp [hv] at h
+    subst h
+    by_cases ht : v0.slot.tracksObj t = true
+    · simp [ht]
+      exact (invalidate_slot v0.slot t 0).1
+    · simpa [ht] using ht
+
+/-- a slot variable that referred to `t` and had a representation is empty afterwards -/
+theorem invalidateTrackable_empties (s : St) (t i : Nat) (v0 : SlotVar) (h0 : aget s.S i = some v0)
+    (ht : v0.slot.tracksObj t = true) :
+    ∃ v, aget (invalidateTrackable s t).S i = some v ∧ v.slot.empty = true ∧ v.slot.liveAll = 0 := by
+  unfold invalidateTrackable
+  simp only [foldl_invalidateCell_S]
+  rw [aget_amap, h0]
+  refine ⟨_, rfl, ?_, ?_⟩
+  · simp only [ht, if_true]
+    unfold SlotB.tracksObj at ht
+    cases hr : v0.slot.rep with
+    | none => simp [hr] at ht
+    | some r => simp [SlotB.invalidate, SlotB.empty, hr]
+  · simp only [ht, if_true]
+    cases hr : v0.slot.rep <;> simp [SlotB.invalidate, SlotB.liveAll, hr]
+
+/-- slot variables that do not refer to `t` are untouched -/
+theorem invalidateTrackable_others (s : St) (t i : Nat) (v0 : SlotVar) (h0 : aget s.S i = some v0)
+    (ht : v0.slot.tracksObj t = false) :
+    aget (invalidateTrackable s t).S i = some v0 := by
+  unfold invalidateTrackable
+  simp only [foldl_invalidateCell_S]
+  rw [aget_amap, h0]
+  simp [ht]
+
+example : (invalidateTrackable { S := [(0, { isVoid := false, slot := { rep := some { call := true, fn := some (.leaf 1 [7]) } } })] } 7).S
+    = [(0, { isVoid := false, slot := { rep := some { call := false, fn := none } } })] := by
+  simp [invalidateTrackable, amap, SlotB.tracksObj, Fun.tracks, SlotB.invalidate]
+
 end Sigc.C02
